@@ -546,9 +546,68 @@ Proof.
       * rewrite nth_supd_other in H; auto. apply (sinv_weaken bk _ (reg st)); auto.
 Qed.
 
+(* AddCallback followed by the cancellation of the stream context: the stream ends unregistered *)
+Lemma ginv_register_cancel bk st kz : ginv bk st -> ginv bk (ss_step bk st (SRegisterCancel kz)).
+Proof.
+  intro G. pose proof G as [RI SI]. unfold ss_step. set (k := Z.to_nat kz).
+  destruct (nth_error (streams st) k) as [s|] eqn:Hk; auto.
+  pose proof (SI _ _ Hk) as [B P C R N]. unfold phase_inv, active, noreg_inv in *.
+  destruct (s_phase s) eqn:Ph; auto.
+  destruct RI as [ND RR].
+  set (cid := s_cid s).
+  set (r' := rdel cid (reg st)).
+  set (strs := match rget cid (reg st) with
+               | Some j => match nth_error (streams st) j with
+                           | Some o => supd j (on_close o) (streams st)
+                           | None => streams st end
+               | None => streams st end).
+  assert (Lk : (k < length (streams st))%nat) by apply (nth_lt _ _ _ Hk).
+  assert (Lstrs : length strs = length (streams st)).
+  { unfold strs. destruct (rget cid (reg st)); auto. destruct (nth_error (streams st) n); auto. apply length_supd. }
+  assert (NRk : forall c, In (c, k) (reg st) -> False).
+  { intros c H. destruct (RR _ _ H) as [s0 [q [busy [A [_ C0]]]]]. rewrite Hk in A. inversion A; subst. congruence. }
+  assert (Rg' : forall j, registered r' j = true -> j <> k /\ exists c, c <> cid /\ In (c, j) (reg st)).
+  { intros j H. apply registered_In in H as [c H]. unfold r' in H.
+    apply In_rdel in H as [H Nc]. simpl in Nc. split; [intro; subst; apply (NRk _ H) | exists c; auto]. }
+  assert (Old : forall j, rget cid (reg st) = Some j ->
+            j <> k /\ exists o q busy, nth_error (streams st) j = Some o /\ s_cid o = cid /\ s_phase o = PLive q busy).
+  { intros j H. apply rget_In in H. split; [intro; subst; apply (NRk _ H)|].
+    destruct (RR _ _ H) as [o [q [busy [A [Bc Cc]]]]]. exists o, q, busy. auto. }
+  assert (Other : forall j c, c <> cid -> In (c, j) (reg st) -> nth_error strs j = nth_error (streams st) j).
+  { intros j c Nc H. unfold strs. case_eq (rget cid (reg st)); [intros jo Go | intros Go]; auto.
+    destruct (Old _ Go) as [_ [o [q [busy [A [Bc _]]]]]]. rewrite A.
+    apply nth_supd_other. intro; subst jo. destruct (RR _ _ H) as [o2 [q2 [b2 [A2 [Bc2 _]]]]].
+    rewrite A in A2. inversion A2; subst. congruence. }
+  split.
+  - split; simpl.
+    + apply nodup_rdel; auto.
+    + intros c j H. apply In_rdel in H as [H Nc]. simpl in Nc. destruct (RR _ _ H) as [o [q [busy [A [Bc Cc]]]]].
+      exists o, q, busy. split; auto. rewrite nth_supd_other; [|intro; subst; apply (NRk _ H)].
+      rewrite (Other j c); auto.
+  - simpl. intros j sj H. destruct (Nat.eq_dec k j) as [<-|Nj].
+    + rewrite nth_supd_same in H by lia. inversion H; subst sj.
+      constructor; unfold phase_inv, active, noreg_inv, set_phase; rs;
+        [exact B | rewrite P; apply lprefix_refl | eapply covers_weaken; eauto | | exact I].
+      unfold reg_inv; rs. rewrite N. exact I.
+    + rewrite nth_supd_other in H; auto.
+      assert (W : registered r' j = true -> registered (reg st) j = true).
+      { intro Hr. destruct (Rg' _ Hr) as [_ [c [_ Hin]]]. apply registered_In. eauto. }
+      unfold strs in H. revert H. case_eq (rget cid (reg st)); [intros jo Go H | intros Go H].
+      2:{ apply (sinv_weaken bk _ (reg st)); auto. }
+      destruct (Old _ Go) as [Njo [o [q [busy [A [Bc Cc]]]]]]. rewrite A in H.
+      destruct (Nat.eq_dec jo j) as [->|Nn].
+      * rewrite nth_supd_same in H by apply (nth_lt _ _ _ A). inversion H; subst sj.
+        assert (NR : registered r' j = false).
+        { destruct (registered r' j) eqn:Hr; auto. destruct (Rg' _ Hr) as [_ [c [Nc Hin]]].
+          destruct (RR _ _ Hin) as [o2 [q2 [b2 [A2 [Bc2 _]]]]]. rewrite A in A2. inversion A2; subst. congruence. }
+        apply (sinv_on_close bk _ _ _ _ q busy); auto.
+        apply (sinv_weaken bk _ (reg st)); auto.
+      * rewrite nth_supd_other in H; auto. apply (sinv_weaken bk _ (reg st)); auto.
+Qed.
+
 Theorem ginv_step bk st e : ginv bk st -> ginv bk (ss_step bk st e).
 Proof.
-  destruct e as [d|d pre|c f|kz ok|kz]; [apply ginv_put | | apply ginv_start | apply ginv_ack | apply ginv_register].
+  destruct e as [d|d pre|c f|kz ok|kz|kz]; [apply ginv_put | | apply ginv_start | apply ginv_ack | apply ginv_register | apply ginv_register_cancel].
   intro G. simpl. destruct (pre && is_bolt bk); [exact G | apply (ginv_put bk st d G)].
 Qed.
 Theorem ginv_run bk es : forall st, ginv bk st -> ginv bk (ss_run bk st es).
@@ -602,8 +661,9 @@ Proof.
 Qed.
 Lemma store_rounds_step bk st e : store_rounds (store st) -> store_rounds (store (ss_step bk st e)).
 Proof.
-  intro H. destruct e as [d|d pre|c f|kz ok|kz]; [apply store_rounds_put; auto | | simpl; auto ..].
+  intro H. destruct e as [d|d pre|c f|kz ok|kz|kz]; [apply store_rounds_put; auto | | simpl; auto ..].
   - simpl. destruct (pre && is_bolt bk); [auto | apply store_rounds_put; auto].
+  - repeat match goal with |- store_rounds (store (match ?x with _ => _ end)) => destruct x end; auto.
   - repeat match goal with |- store_rounds (store (match ?x with _ => _ end)) => destruct x end; auto.
   - repeat match goal with |- store_rounds (store (match ?x with _ => _ end)) => destruct x end; auto.
 Qed.
@@ -697,7 +757,7 @@ Lemma base_ok_step bk st e :
   (forall k s, nth_error (streams st) k = Some s -> base_ok s) ->
   forall k s, nth_error (streams (ss_step bk st e)) k = Some s -> base_ok s.
 Proof.
-  intros I k s'. destruct e as [d|d pre|c f|kz ok|kz]; [apply base_ok_put; auto | | simpl ..].
+  intros I k s'. destruct e as [d|d pre|c f|kz ok|kz|kz]; [apply base_ok_put; auto | | simpl ..].
   - simpl. destruct (pre && is_bolt bk); [apply I | apply base_ok_put; auto].
   - intro H. destruct (Nat.lt_ge_cases k (length (streams st))) as [Lt|Ge].
     + rewrite nth_error_app1 in H; eauto.
@@ -725,6 +785,14 @@ Proof.
       destruct (nth_error (streams st) j) as [o|] eqn:Hj; [|eauto].
       apply supd_cases in H as [[-> [-> _]]|[_ H]]; [|eauto].
       eapply base_ok_same; [apply on_close_origin | eauto].
+  - destruct (nth_error (streams st) (Z.to_nat kz)) as [s|] eqn:Hk; [|apply I].
+    destruct (s_phase s) eqn:Ph; try apply I. simpl. intro H.
+    apply supd_cases in H as [[-> [-> _]]|[_ H]].
+    + eapply base_ok_same; [|apply (I _ _ Hk)]. apply origin_fields; simpl; auto. intros e0 H0; congruence.
+    + destruct (rget (s_cid s) (reg st)) as [j|]; [|eauto].
+      destruct (nth_error (streams st) j) as [o|] eqn:Hj; [|eauto].
+      apply supd_cases in H as [[-> [-> _]]|[_ H]]; [|eauto].
+      eapply base_ok_same; [apply on_close_origin | eauto].
 Qed.
 
 Lemma base_ok_run bk es : forall st,
@@ -737,3 +805,45 @@ Qed.
 Theorem stream_base bk g es k s :
   nth_error (streams (ss_run bk (ss_init g) es)) k = Some s -> base_ok s.
 Proof. apply base_ok_run. intros k0 s0 H. destruct k0; discriminate. Qed.
+
+(* ---- registered callbacks and live streams ---- *)
+Definition is_live (s : stream) : bool := match s_phase s with PLive _ _ => true | _ => false end.
+Definition live_indices (st : sst) : list nat :=
+  filter (fun k => match nth_error (streams st) k with Some s => is_live s | None => false end)
+         (seq 0 (length (streams st))).
+
+Lemma rinv_snd_nodup st : rinv st -> NoDup (map snd (reg st)).
+Proof.
+  intros [ND R].
+  assert (Hc : forall c k, In (c, k) (reg st) -> exists s, nth_error (streams st) k = Some s /\ s_cid s = c).
+  { intros c k H. destruct (R _ _ H) as [s [q [b [A [B _]]]]]. eauto. }
+  clear R. revert ND Hc. generalize (reg st) as l. induction l as [|[c k] t IH]; simpl; intros ND Hc; [constructor|].
+  inversion ND; subst. constructor.
+  - intro H. apply in_map_iff in H as [[c' k'] [E H]]. simpl in E; subst k'.
+    destruct (Hc c k (or_introl eq_refl)) as [s [A B]]. destruct (Hc c' k (or_intror H)) as [s' [A' B']].
+    rewrite A in A'. inversion A'; subst. apply H1. change (s_cid s') with (fst (s_cid s', k)). apply in_map; auto.
+  - apply IH; auto; intros c' k' H; apply Hc; right; auto.
+Qed.
+
+(* a stream that has ended is not registered; the callbacks registered in the store belong to
+   pairwise distinct streams that are in their live phase *)
+Theorem stream_ended_unregistered bk g es k s e :
+  nth_error (streams (ss_run bk (ss_init g) es)) k = Some s -> s_phase s = PDone e ->
+  registered (reg (ss_run bk (ss_init g) es)) k = false.
+Proof.
+  intros H Ph. destruct (reachable_ginv bk g es) as [RI _].
+  destruct (registered (reg (ss_run bk (ss_init g) es)) k) eqn:Rg; auto.
+  destruct (rinv_live _ k RI Rg) as [s0 [q [b [A C]]]]. rewrite H in A. inversion A; subst. congruence.
+Qed.
+
+Theorem registered_le_live bk g es :
+  let st := ss_run bk (ss_init g) es in (length (reg st) <= length (live_indices st))%nat.
+Proof.
+  intro st. destruct (reachable_ginv bk g es) as [RI _]. fold st in RI.
+  rewrite <- (map_length snd). apply NoDup_incl_length; [apply rinv_snd_nodup; auto|].
+  intros k H. apply in_map_iff in H as [[c k'] [E H]]. simpl in E; subst k'.
+  destruct RI as [_ R]. destruct (R _ _ H) as [s [q [b [A [_ Ph]]]]].
+  unfold live_indices. apply filter_In. split.
+  - apply in_seq. pose proof (nth_lt _ _ _ A). lia.
+  - rewrite A. unfold is_live. rewrite Ph. auto.
+Qed.
